@@ -17,21 +17,21 @@ import (
 const modPath = "github.com/weedbox/pokertable"
 
 type Prog struct {
-	repo          string
-	prog          *ssa.Program
-	pkgs          []*packages.Package
-	spkgs         map[string]*ssa.Package // by import path
-	cfiles        map[string]*ContractFile
-	contracts     map[*ssa.Function]*Contract
-	byName        map[string]*ssa.Function // short name -> function (all packages of the module)
-	contractErrs  []string
-	tags          map[string]int64
-	tagNames      map[int64]string
-	ascendingMaps bool
-	errGlobals    map[string]int64 // "global.pkg.Name" -> code
-	globalWrites  map[string]bool  // globals stored to outside init
-	lemmas        []*Contract
-	findings      FindingsFile
+	repo           string
+	prog           *ssa.Program
+	pkgs           []*packages.Package
+	spkgs          map[string]*ssa.Package // by import path
+	cfiles         map[string]*ContractFile
+	contracts      map[*ssa.Function]*Contract
+	byName         map[string]*ssa.Function // short name -> function (all packages of the module)
+	contractErrs   []string
+	tags           map[string]int64
+	tagNames       map[int64]string
+	ascendingMaps  bool
+	errGlobals     map[string]int64 // "global.pkg.Name" -> code
+	globalWrites   map[string]bool  // globals stored to outside init
+	lemmas         []*Contract
+	findings       FindingsFile
 	ifaceContracts map[string]*Contract
 }
 
